@@ -129,6 +129,12 @@ type c26Ctx struct {
 	rcpt     int64
 	rcptJSON int64
 	rcptSkip int64
+	// density / pattern families
+	dense     int64
+	patterns  int64
+	maxComp   int64
+	expanding int64 // blooms whose compressed form is LONGER than 256 bytes
+	bands     [8]int64
 }
 
 // C26Case is the replayable form of one case.
@@ -166,35 +172,41 @@ func c26What(w string) string {
 	return w
 }
 
+// roundTripsQuiet returns the bloom after each storage / transport form; it
+// panics if a form cannot be produced or read back.
+func (c *c26Ctx) roundTripsQuiet(lb *LogsBloom) map[string]*LogsBloom {
+	out := map[string]*LogsBloom{}
+	out["compressed"] = NewLogsBloomFromCompressed(lb.CompressedBytes())
+	out["bytes"] = NewLogsBloom(lb.Bytes())
+	out["logbytes"] = NewLogsBloom(lb.LogBytes())
+	bs, err := codec.BC.MarshalToBytes(lb)
+	if err != nil {
+		panic(err)
+	}
+	r := new(LogsBloom)
+	if _, err := codec.BC.UnmarshalFromBytes(bs, r); err != nil {
+		panic(err)
+	}
+	out["rlp"] = r
+	js, err := json.Marshal(lb)
+	if err != nil {
+		panic(err)
+	}
+	j := new(LogsBloom)
+	if err := json.Unmarshal(js, j); err != nil {
+		panic(err)
+	}
+	out["json"] = j
+	m := NewLogsBloom(nil)
+	m.Merge(c26Foreign{lb.Bytes()})
+	out["merged-from-foreign"] = m
+	return out
+}
+
 // roundTrips returns the bloom after each storage / transport form.
 func (c *c26Ctx) roundTrips(cs C26Case, lb *LogsBloom) map[string]*LogsBloom {
-	out := map[string]*LogsBloom{}
-	if p := ev.Catch(func() {
-		out["compressed"] = NewLogsBloomFromCompressed(lb.CompressedBytes())
-		out["bytes"] = NewLogsBloom(lb.Bytes())
-		out["logbytes"] = NewLogsBloom(lb.LogBytes())
-		bs, err := codec.BC.MarshalToBytes(lb)
-		if err != nil {
-			panic(err)
-		}
-		r := new(LogsBloom)
-		if _, err := codec.BC.UnmarshalFromBytes(bs, r); err != nil {
-			panic(err)
-		}
-		out["rlp"] = r
-		js, err := json.Marshal(lb)
-		if err != nil {
-			panic(err)
-		}
-		j := new(LogsBloom)
-		if err := json.Unmarshal(js, j); err != nil {
-			panic(err)
-		}
-		out["json"] = j
-		m := NewLogsBloom(nil)
-		m.Merge(c26Foreign{lb.Bytes()})
-		out["merged-from-foreign"] = m
-	}); p != "" {
+	var out map[string]*LogsBloom
+	if p := ev.Catch(func() { out = c.roundTripsQuiet(lb) }); p != "" {
 		c.r.Violation("roundtrip-fails", fmt.Sprintf("bloom %x: %s; logs=%v", lb.Bytes(), p, cs.Logs), cs)
 		return nil
 	}
@@ -455,7 +467,7 @@ func TestVerifC26(t *testing.T) {
 	}
 	pairN := r.Pick(nU4, len(c.uni))
 	bitsN := r.Pick(1<<13, 1<<17)
-	r.Rule(fmt.Sprintf("logs = address in {hx1,cx2,cx3} x indexed list of length 1..3 over {signature, 21 address bytes, 00, nil} (%d logs) plus the lists using an empty non-nil value (%d logs in all). 'set' cases: every single log of all %d, every unordered pair of the first %d logs, every unordered triple of %d logs (2 addresses, lists of length<=2 quick / <=3 thorough); each set in EVERY order and EVERY split of the ordered list into consecutive receipts (one bloom per receipt via AddLog, block bloom via Merge), block bloom queried for each log's address, each non-nil indexed value at its position and their conjunction, directly and after compressed/bytes/logbytes/RLP/JSON/foreign-merge forms; 'receipt' cases: every single log and every pair (thorough: all enumerated pairs; quick: pairs of the %d-log sub-universe) through the real receipt object in versions 1,2,3, its binary form decoded again, and its JSON form where representable; 'bits' cases: one-value logs with the value a 3-byte counter 0..%d. non-trivial = distinct case (kind + logs / counter)", nU4, len(c.uni), len(c.uni), pairN, len(tripleIDs), len(sub), bitsN-1))
+	r.Rule(fmt.Sprintf("logs = address in {hx1,cx2,cx3} x indexed list of length 1..3 over {signature, 21 address bytes, 00, nil} (%d logs) plus the lists using an empty non-nil value (%d logs in all). 'set' cases: every single log of all %d, every unordered pair of the first %d logs, every unordered triple of %d logs (2 addresses, lists of length<=2 quick / <=3 thorough); each set in EVERY order and EVERY split of the ordered list into consecutive receipts (one bloom per receipt via AddLog, block bloom via Merge), block bloom queried for each log's address, each non-nil indexed value at its position and their conjunction, directly and after compressed/bytes/logbytes/RLP/JSON/foreign-merge forms; 'receipt' cases: every single log and every pair (thorough: all enumerated pairs; quick: pairs of the %d-log sub-universe) through the real receipt object in versions 1,2,3, its binary form decoded again, and its JSON form where representable; 'bits' cases: one-value logs with the value a 3-byte counter 0..%d; 'dense' cases: 4 deterministic log families (distinct/one address, 4/2 indexed values, nil position) x 3 receipt structures (receipt per log, one receipt, receipts of 7), cumulative block bloom after EVERY log 1..N_dense: all storage forms equal and mutually containing, every contributing log's address / values / conjunction found directly and after the compressed form, and at the checkpoint counts in every form and through real receipts v1/v2/v3 holding all logs; 'pattern' cases: blooms constructed directly with k set bits, every k in 0..2048, patterns low/high/scattered(SHA3 order)/stride-3/complement-of-scattered: all forms equal, single set bits still found in every form. non-trivial = distinct case (kind + logs / counter / family,structure,n / pattern,k)", nU4, len(c.uni), len(c.uni), pairN, len(tripleIDs), len(sub), bitsN-1))
 	r.Assume("a log with zero indexed entries is outside the alphabet: the code adds nothing for it, and real event logs always carry the signature at position 0", "the oracle needs no reference bloom: it only asks Contain; byte-equality across merge orders is asserted in addition")
 
 	if ev.Replaying() {
@@ -465,6 +477,14 @@ func TestVerifC26(t *testing.T) {
 		case "bits":
 			var cover [LogsBloomBits]int32
 			c.checkBits(cs.V, &cover, &sync.Map{})
+		case "dense":
+			var fam, st int
+			fmt.Sscanf(cs.Note, "%d/%d", &fam, &st)
+			c.denseSeries(fam, st, cs.V, nil, cs.V)
+		case "pattern":
+			var pat int
+			fmt.Sscanf(cs.Note, "%d", &pat)
+			c.patternCase(pat, cs.V)
 		default:
 			c.uni, c.single, c.queries = nil, nil, nil
 			var ids []int
@@ -552,6 +572,38 @@ func TestVerifC26(t *testing.T) {
 		r.Eval(hi - lo)
 	})
 
+	// density family: 4 log families x 3 receipt structures, cumulative, checked after every log
+	denseN := r.Pick(420, 1200)
+	checkpoints := map[int]bool{}
+	for _, n := range []int{1, 10, 20, 40, 60, 80, 120, 160, 200, 300, 400, 600, 800, 1200} {
+		checkpoints[n] = true
+	}
+	ev.Par(4*len(c26DenseStructures), 16, func(i int) {
+		if r.Expired() {
+			atomic.AddInt64(&skipped, 1)
+			return
+		}
+		fam, st := i/len(c26DenseStructures), i%len(c26DenseStructures)
+		c.denseSeries(fam, st, denseN, checkpoints, 0)
+		for n := 1; n <= denseN; n++ {
+			r.Nontrivial(fmt.Sprintf("dense/%d/%d/%d", fam, st, n))
+		}
+		r.Eval(denseN)
+	})
+	// pattern family: every number of set bits 0..2048 in each pattern
+	ev.Par(len(c26Patterns)*(LogsBloomBits+1), 16, func(i int) {
+		if i%64 == 0 && r.Expired() {
+			atomic.AddInt64(&skipped, 1)
+		}
+		if atomic.LoadInt64(&skipped) > 0 {
+			return
+		}
+		pat, k := i/(LogsBloomBits+1), i%(LogsBloomBits+1)
+		c.patternCase(pat, k)
+		r.Nontrivial(fmt.Sprintf("pattern/%d/%d", pat, k))
+		r.Eval(1)
+	})
+
 	covered, minHits := 0, int32(1<<30)
 	for _, h := range cover {
 		if h > 0 {
@@ -580,6 +632,16 @@ func TestVerifC26(t *testing.T) {
 	r.Set("bit_position_min_hits", minHits)
 	r.Set("distinct_single_item_bloom_byte_lengths", len(blens))
 	r.Set("chunks_skipped_by_budget", skipped)
+	r.Set("cases_dense", c.dense)
+	r.Set("cases_pattern", c.patterns)
+	r.Set("dense_max_logs", denseN)
+	r.Set("max_compressed_len_seen", c.maxComp)
+	r.Set("blooms_with_compressed_len_over_256", c.expanding)
+	r.Set("blooms_by_eighth_of_bits_set", c.bands[:])
+	r.Sanity(skipped > 0 || c.maxComp > LogsBloomBytes, "no bloom dense enough to make LZW expand was exercised (max compressed length %d)", c.maxComp)
+	for b, n := range c.bands {
+		r.Sanity(skipped > 0 || n > 0, "no bloom with %d/8..%d/8 of the bits set", b, b+1)
+	}
 	l0 := c.uni[5]
 	r.Sample(map[string]interface{}{"log": l0.String(), "receipt_bloom_bits": c26BitList(c.single[5]), "queries": len(c.queries[5])})
 	l1 := c.uni[nU4-1]
